@@ -309,6 +309,7 @@ def canonical_paths(txt, crate):
 # canonical path -> (path prefix, number of inputs, printed input types, printed output type)
 _BY_SIGNATURE = {
     "scale_info::meta_type::MetaType::is_phantom": ("scale_info::meta_type::MetaType::", ["&scale_info::meta_type::MetaType"], "bool"),
+    "scale_info_derive::attr::BoundsAttr::contains_type_param": ("scale_info_derive::attr::BoundsAttr::", ["&scale_info_derive::attr::BoundsAttr", "&syn::generics::TypeParam"], "bool"),
 }
 
 
@@ -326,7 +327,7 @@ def _signature_renames(d, crate):
         cands = []
         for f in fns:
             p_ = f.get("path") or ""
-            if not p_.startswith(prefix) or "::" in p_[len(prefix):] or f.get("kind") not in ("AssocFn", "Fn") or f.get("vis") == "pub":
+            if not p_.startswith(prefix) or "::" in p_[len(prefix):] or f.get("kind") not in ("AssocFn", "Fn") or (f.get("vis") == "pub" and crate != "scale_info_derive"):
                 continue
             try:
                 i_ = [_re.sub(r"'[a-z_0-9]+ ", "", tys[x]["s"]) for x in f.get("inputs", [])]
